@@ -33,6 +33,10 @@ func scenarioC07(r *Run) {
 	ent := NewEntropy(uint64(t.U32("entropy.seed")))
 	detached := t.Bool(1, 5, "c07.detached")
 	depth := t.Choose(4, "c07.csig.depth")
+	if t.Bool(1, 40, "c07.csig.deep") {
+		depth = 4 + t.Choose(3, "c07.csig.deeper") // well inside the CBOR nesting limit
+		r.Probe("foreign-countersig-depth>=4")
+	}
 	w := r.ForeignWire(t, spec, k, ent, detached, depth, false)
 	r.Op("FOREIGN_ISSUE", "%s knobs{rewidth=%d/16 reorder=%v a0=%v} detached=%v csigdepth=%d", spec, k.Rewidth, k.Reorder, k.A0, detached, depth)
 	r.Logf("wire %x", w.B)
